@@ -142,7 +142,13 @@ def conforming(rng, classes, n):
 def draw_component(rng, fi, k, wother):
     a, e, cl = fi[k]
     w = e - a
-    mode = rng.choice(["fit", "fit", "short", "short", "long", "combined", "ws", "alien", "empty", "zero", "ws-only", "lengthening"])
+    mode = rng.choice(["fit", "fit", "short", "short", "long", "combined", "ws", "alien", "empty", "zero", "ws-only", "lengthening", "grouped"])
+    if mode == "grouped":
+        # the value written the way people write such codes: groups of 2-4 characters joined by a separator
+        v = conforming(rng, cl, max(2, w))
+        g_ = rng.choice((2, 2, 3, 4))
+        sep = rng.choice(["-", "-", ".", "/", " ", ":"])
+        return mode, sep.join(v[i:i + g_] for i in range(0, len(v), g_))
     if mode == "ws-only":
         return mode, rng.choice([" ", "\t", "\xa0", " \n ", "  "])
     if mode == "lengthening":
@@ -232,6 +238,18 @@ def shard(arg):
                  (cc, b, r, a) if nt else None,
                  {"cc": cc, "bank_code": b, "branch_code": r, "account_code": a, "outcome": res})
     rec.exhaustive.append("grid of width classes {0,1,w-1,w,w+1,w+5,combined} per component, per country")
+    for k in ("bank_code", "branch_code", "account_code"):
+        wk = w[k]
+        if wk < 2:
+            continue
+        for sep in ("-", ".", "/", " "):
+            for g_ in (2, 3, 4):
+                v = conforming(rng, fi[k][2], wk)
+                grouped = sep.join(v[i:i + g_] for i in range(0, len(v), g_))
+                vals = {x: conforming(rng, fi[x][2], w[x]) for x in w}
+                vals[k] = grouped
+                res, exp = check(rec, cc, vals["bank_code"], vals["branch_code"], vals["account_code"], f"grouped:{k}:{sep}{g_}")
+                rec.case("grouped-" + res, (cc, k, grouped))
     touch(cc, rng)
     # after other uses of the country (parsing, accessor reads, lookups, random draws): empty / whitespace-only components again
     for b, r, a in (("", "", ""), (" ", "", "\t"), ("", "", "1"), ("1", "", "")):
@@ -385,4 +403,4 @@ def run(ctx):
     ctx.extra["countries_with_positions"] = len(with_pos)
     ctx.extra["success_per_country_min"] = min(ctx.rec.classes.get(f"success-{cc}", 0) for cc in with_pos)
     ctx.require_classes("synthetic-fits", "synthetic-split", "synthetic-overlong", "grid-overlong", "grid-split", "grid-ok", "draw-ok", "draw-err-overlong", "unknown-or-no-positions",
-                        "component-alien", "component-ws", "component-ws-only", "component-lengthening", "after-touch-ok", "after-touch-err", "hyp-ok", *[f"success-{cc}" for cc in with_pos])
+                        "grouped-ok", "grouped-err", "component-grouped", "component-alien", "component-ws", "component-ws-only", "component-lengthening", "after-touch-ok", "after-touch-err", "hyp-ok", *[f"success-{cc}" for cc in with_pos])
